@@ -32,7 +32,19 @@ def drivers(tier):
             explicit_ids=(1,), max_autos=1, coarse=False,
             shapes=((), ('A',), ('H',), ('A', 'H'))),
             dict(max_states=250000, time_budget=240))
+        # an on_remove callback that deletes the other entity at once and
+        # re-creates it under the same identifier
+        d['callback-recreates'] = (WorldDriver(
+            'callback-recreates', own='Q', types=('A', 'HKR'), ids=(1, 2),
+            explicit_ids=(1, 2), max_autos=1,
+            shapes=((), ('A',), ('HKR',), ('A', 'HKR'))),
+            dict(max_states=250000, time_budget=240))
     else:
+        d['callback-recreates'] = (WorldDriver(
+            'callback-recreates', own='Q', types=('A', 'X', 'HKR'),
+            ids=(1, 2), explicit_ids=(1, 2), max_autos=1,
+            shapes=((), ('A',), ('HKR',), ('A', 'HKR'), ('X', 'HKR'))),
+            dict(max_states=1000000, time_budget=900))
         d['queries-from-callbacks'] = (WorldDriver(
             'queries-from-callbacks', own='Q', types=('A', 'B', 'H'),
             ids=(1, 2), explicit_ids=(1, 2), max_autos=1, coarse=False,
